@@ -25,6 +25,7 @@ import (
 	"time"
 
 	"verif/internal/ev"
+	"verif/internal/mon"
 	"verif/internal/opdrv"
 )
 
@@ -94,6 +95,9 @@ func main() {
 	phase("reqobj", nReqObj, reqObjCase)
 	phase("endpoint", nEndpoint, endpointCase)
 	phase("direct", nDirect, directCase)
+	if pi := mon.Catch(func() { emptyIssuerObservation(run) }); pi != nil {
+		run.Count("observation_not_judged:object_without_iss_and_client_id_signed_with_a_key_stored_under_the_empty_client_id", "panic: "+pi.Value)
+	}
 	run.Extra("phase_wall_s", phases)
 	run.Extra("cases", map[string]int{"direct": nDirect, "endpoint": nEndpoint, "reqobj": nReqObj, "interop": nInterop})
 	run.Finish()
